@@ -396,6 +396,11 @@ func c19RunLatest(b core.Batch, r *core.Recorder) {
 			continue
 		}
 		r.Count("bursts_judged", 1)
+		// bounded grace: the logger's own listener was notified together with the co-listener, its goroutine may
+		// not have had the CPU yet (judging 1 ms after the co-listener was a false alarm at load 50, DESIGN 6.4)
+		waitFor(func() bool {
+			return slog.Default().Enabled(context.Background(), last) && !slog.Default().Enabled(context.Background(), last-1)
+		}, 5*time.Second)
 		enabledAtLast := slog.Default().Enabled(context.Background(), last)
 		enabledBelow := slog.Default().Enabled(context.Background(), last-1)
 		if !enabledAtLast || enabledBelow {
@@ -470,6 +475,16 @@ func c19RunShutdown(b core.Batch, r *core.Recorder) {
 					cfg.Cache.CleanupInterval.Overwrite(duration.Duration(time.Duration(70+n+k) * time.Minute))
 				}
 				waitFor(func() bool { return d.Load() == 1 && dI.Load() == 3 }, 5*time.Second)
+				// bounded grace for the survivors: they were notified together with the co-listener, their goroutines
+				// may not have had the CPU yet (3 ms was a false alarm at load 40, DESIGN 6.4)
+				waitFor(func() bool {
+					for i, c := range caches {
+						if got, _ := c.VerifLimits(); !destroyed[i] && got != newSize {
+							return false
+						}
+					}
+					return true
+				}, 5*time.Second)
 				time.Sleep(3 * time.Millisecond)
 				u()
 				uI()
@@ -749,9 +764,20 @@ func c19RunUnsubDuringFire(b core.Batch, r *core.Recorder) {
 		r.Eval(1)
 		cfg := config.NewDefault()
 		calls := make([]atomic.Int64, K)
+		// notifications of the second change are told apart by the value they carry: a notification of the first
+		// change that reaches a listener late (its goroutine had no CPU; it was in flight when the listener
+		// unsubscribed, which is allowed) must not be taken for one of the second change (false alarm at load 40)
+		second := make([]atomic.Int64, K)
+		secondValue := bytesize.ByteSize(9000 + n)
 		unsub := make([]func(), K)
 		for i := 0; i < K; i++ {
-			unsub[i] = cfg.Cache.MaxCacheSize.OnChange(func(bytesize.ByteSize) { calls[i].Add(1) })
+			unsub[i] = cfg.Cache.MaxCacheSize.OnChange(func(v bytesize.ByteSize) {
+				if v == secondValue {
+					second[i].Add(1)
+				} else {
+					calls[i].Add(1)
+				}
+			})
 		}
 		victims := map[int]bool{}
 		for v := 0; v < nun; v++ {
@@ -811,22 +837,19 @@ func c19RunUnsubDuringFire(b core.Batch, r *core.Recorder) {
 			r.Violation("C19", "C19:unsubscribe-during-change:listener-called-twice", fmt.Sprintf("%d listeners, %v shut down while the change was being announced: listeners %v were told twice", K, c19keys(victims), twice), cs, nil)
 		}
 		// a second change, after the dust has settled, reaches exactly the survivors
-		for i := range calls {
-			calls[i].Store(0)
-		}
-		cfg.Cache.MaxCacheSize.Overwrite(bytesize.ByteSize(9000 + n))
+		cfg.Cache.MaxCacheSize.Overwrite(secondValue)
 		waitFor(func() bool {
 			got := 0
-			for i := range calls {
-				if !victims[i] && calls[i].Load() >= 1 {
+			for i := range second {
+				if !victims[i] && second[i].Load() >= 1 {
 					got++
 				}
 			}
 			return got == survivors
 		}, wait)
 		time.Sleep(2 * time.Millisecond)
-		for i := range calls {
-			c := calls[i].Load()
+		for i := range second {
+			c := second[i].Load()
 			if victims[i] && c != 0 {
 				r.Violation("C19", "C19:unsubscribed-listener-still-called", fmt.Sprintf("listener %d was shut down during the previous change and was told about a later one", i), cs, nil)
 				break
